@@ -309,6 +309,11 @@ pub fn run_c13(cfg: &Cfg) -> i32 {
     let mut ncomp = if miri { cfg.count(6, 60) } else { cfg.count(5_000, 1_000_000) };
     let mut forms: Vec<Option<(Vec<Atom>, Outcome)>> = Vec::new();
     for (bi, base) in bases.iter().enumerate() {
+        if !cfg!(feature = "full") && matches!(base.kind, Kind::Candidates | Kind::Installed) {
+            // the agent's readers are not part of the interpreter build
+            forms.push(None);
+            continue;
+        }
         let Some((base_atoms, base_out, base_text)) = accepted_form(base, &mut s) else {
             rep.violation("harness:base-not-accepted", &base.label, json!({"base": clip(&dom::serialise(&base.tree, &style_of(&[], base.kind)), 800)}));
             forms.push(None);
@@ -450,7 +455,7 @@ fn mutate(r: &mut Prng, input: &[u8], other: &[u8]) -> (Vec<u8>, &'static str) {
             // giant attribute value on the first element
             let s = String::from_utf8_lossy(&v).into_owned();
             if let Some(gt) = s.find('>') {
-                let n = *r.pick(&[1 << 10, 1 << 16, 1 << 20]);
+                let n = if cfg!(miri) { 1 << 8 } else { *r.pick(&[1 << 10, 1 << 16, 1 << 20]) };
                 let mut o = s[..gt].trim_end_matches('/').to_string();
                 o.push_str(" big=\"");
                 o.push_str(&"A".repeat(n));
@@ -464,7 +469,7 @@ fn mutate(r: &mut Prng, input: &[u8], other: &[u8]) -> (Vec<u8>, &'static str) {
             // deep nesting inside the root
             let s = String::from_utf8_lossy(&v).into_owned();
             if let Some(gt) = s.find('>') {
-                let n = *r.pick(&[100usize, 2_000, 10_000]);
+                let n = if cfg!(miri) { 40 } else { *r.pick(&[100usize, 2_000, 10_000]) };
                 let mut o = s[..=gt].to_string();
                 o.push_str(&"<d>".repeat(n));
                 if r.chance(1, 2) {
@@ -547,7 +552,7 @@ pub fn run_c14(cfg: &Cfg) -> i32 {
     let bases = bases::bases(0);
     let caps: Vec<&str> = crate::memwire::ALL_CAPS.to_vec();
     let miri = cfg.stage == "miri";
-    let n = if miri { cfg.count(40, 2_000) } else { cfg.count(100_000, 10_000_000) };
+    let n = if miri { cfg.count(24, 480) } else { cfg.count(100_000, 10_000_000) };
     // watchdog: a parser that loops would hang the whole process; the watchdog turns that into a
     // reported witness (case index) instead of an outer timeout
     let progress = Arc::new(AtomicU64::new(0));
@@ -587,8 +592,11 @@ pub fn run_c14(cfg: &Cfg) -> i32 {
         let idx = cfg.case_index(i);
         progress.store(i + 1, Ordering::SeqCst);
         let mut r = cfg.prng("C14", idx);
-        let base = &bases[r.below(bases.len())];
+        let mut base = &bases[r.below(bases.len())];
         let other = &bases[r.below(bases.len())];
+        if !cfg!(feature = "full") && matches!(base.kind, Kind::Candidates | Kind::Installed) {
+            base = &bases[4]; // a reply base: the agent's readers are not part of the interpreter build
+        }
         let style = if r.chance(1, 3) { vec![Atom::Indent] } else { vec![] };
         let text = dom::serialise(&base.tree, &style_of(&style, base.kind));
         let other_text = dom::serialise(&other.tree, &style_of(&[], other.kind));
@@ -656,7 +664,7 @@ pub fn run_c14(cfg: &Cfg) -> i32 {
             }
         }
         let el = t0.elapsed();
-        if el.as_secs_f64() > 2.0 {
+        if el.as_secs_f64() > 2.0 && !miri {
             rep.inconclusive(&format!("case {idx} ({mname})"), &format!("took {:.1}s (slow, not a verdict)", el.as_secs_f64()));
         }
         if rep.samples.len() < rep.max_samples && i % 9973 == 7 {
